@@ -255,7 +255,9 @@ class DrvDomain(Domain):
             if fd["name"] in f:
                 continue
             init = fd.get("init")
-            v = Undef(fd["name"])
+            # not Undef: whether the constructor initialises a member this table does not know is not examined here, and
+            # "read before assigned" must not be claimed for it
+            v = Opaque("member %s (not modelled)" % fd["name"])
             while init is not None and init.get("k") in ("Paren", "Cast", "ImplicitCast", "Expr") and init.get("e") is not None:
                 init = init["e"]
             if init is not None and init.get("k") in ("Int", "Bool") and "v" in init:
